@@ -424,4 +424,18 @@ class ModuleFrames(object):
                     out.append((n.lineno, 'one-shot iterator passed to %s(...)' % nm))
             elif isinstance(p, ast.Assign) and any(isinstance(t, ast.Attribute) for t in p.targets):
                 out.append((n.lineno, 'one-shot iterator stored in an attribute'))
+            elif isinstance(p, ast.Assign) and any(isinstance(t, ast.Name) for t in p.targets):
+                # bound to a local of a factory function whose nested function -- returned, so it outlives the call and runs once
+                # per use -- reads that local: the first use drains it
+                names = {t.id for t in p.targets if isinstance(t, ast.Name)}
+                f = parents.get(p)
+                while f is not None and not isinstance(f, (ast.FunctionDef, ast.Lambda)):
+                    f = parents.get(f)
+                if isinstance(f, ast.FunctionDef):
+                    returned = {r.value.id for r in ast.walk(f) if isinstance(r, ast.Return) and isinstance(r.value, ast.Name)}
+                    for g in f.body:
+                        if isinstance(g, ast.FunctionDef) and g.name in returned and any(
+                                isinstance(x, ast.Name) and isinstance(x.ctx, ast.Load) and x.id in names for x in ast.walk(g)):
+                            out.append((n.lineno, 'one-shot iterator bound to %s, which the returned per-use function %s reads' % ('/'.join(sorted(names)), g.name)))
+                            break
         return out
